@@ -152,12 +152,58 @@ PEAK = [Fr(0)]
 """Largest intermediate magnitude bound seen by the last reference evaluation."""
 
 
+TINY = [Fr(1)]
+"""Smallest non-zero magnitude of an exact intermediate value in the last reference evaluation."""
+
+
 def _ref(node: Any, vals: list[Fr | None]) -> tuple[Fr | None, Fr, bool]:
     """(value or None=undefined, magnitude bound, subtree contains a division)."""
     val, mag, div = _ref_inner(node, vals)
     if mag > PEAK[0]:
         PEAK[0] = mag
+    if val is not None and val != 0 and abs(val) < TINY[0]:
+        TINY[0] = abs(val)
     return val, mag, div
+
+
+def _float_eval(node: Any, vals: list[float | None]) -> float:
+    """Plain binary64 evaluation (conventional association); NaN for undefined."""
+    op = node[0]
+    if op == "s":
+        x = vals[node[1]]
+        return math.nan if x is None else x
+    if op == "c":
+        return float(node[1])
+    if op == "cons":
+        x = _float_eval(node[1], vals)
+        return x if math.isnan(x) else max(x, 0.0)
+    if op == "prod":
+        x = _float_eval(node[1], vals)
+        return x if math.isnan(x) else max(-x, 0.0)
+    if op == "clip":
+        x = _float_eval(node[1], vals)
+        if math.isnan(x):
+            return x
+        if node[2] is not None:
+            x = max(x, node[2])
+        if node[3] is not None:
+            x = min(x, node[3])
+        return x
+    a, b = _float_eval(node[1], vals), _float_eval(node[2], vals)
+    if math.isnan(a) or math.isnan(b):
+        return math.nan
+    try:
+        if op == "+":
+            return a + b
+        if op == "-":
+            return a - b
+        if op == "*":
+            return a * b
+        if op == "/":
+            return a / b if b != 0 else math.nan
+    except OverflowError:
+        return math.inf
+    return max(a, b) if op == "max" else min(a, b)
 
 
 def _ref_inner(node: Any, vals: list[Fr | None]) -> tuple[Fr | None, Fr, bool]:
@@ -502,15 +548,21 @@ def run_case(case: Any, pid: str) -> Verdict:
                 vals.append(Fr(row[i]))
         try:
             PEAK[0] = Fr(0)
+            TINY[0] = Fr(1)
             want, mag, _ = _ref(tree, vals)
             mag = max(mag, PEAK[0])
         except _Amb:
             v.labels.add("excluded_ill_conditioned_timestamp")
             continue
+        if TINY[0] < Fr(1, 10 ** 300):
+            # an intermediate underflows in binary64: not judged
+            v.labels.add("excluded_ill_conditioned_timestamp")
+            continue
         if mag > Fr(10) ** 300:
-            # binary64 overflows somewhere: only the clear case is judged (the exact result itself
-            # is beyond the float range, so the computed result cannot be finite)
-            if want is not None and abs(want) > Fr(2) ** 1024:
+            # binary64 overflows somewhere: only the clear case is judged (the exact result itself is beyond
+            # the float range AND a plain float evaluation is not finite either, i.e. no cancellation hides it)
+            fl = _float_eval(tree, [None if x is None else float(x) for x in vals])
+            if want is not None and abs(want) > Fr(2) ** 1024 and not math.isfinite(fl):
                 want = None
                 v.labels.add("overflowing_result")
             else:
